@@ -44,10 +44,32 @@
 //! `chopped:point-not-first:multi_prepare:index-out-of-bounds`; found by this
 //! check on its first run, repaired independently in /repo commit 1cabfe4).
 //!
-//! Sensitivity (scratch worktree, see GUIDE): recorded at the end of this
-//! comment block once run.
+//! The sub-check `edge.points_vs_degree` opens a polynomial with 2^k = 4
+//! coefficients at 5 points: `multi_open` panics ("capacity overflow",
+//! utils/arithmetic.rs:102, `kate_division` on an empty dividend computes
+//! `a.len() - 1`); signature `multi_open:points>coefficients:capacity-overflow`.
+//! With `a.len().saturating_sub(1)` on a scratch copy the whole check is silent.
 //!
-//! MUTANTS-TRIED: see bottom of file header (updated by the builder).
+//! Sensitivity (scratch worktree as in the GUIDE, quick tier, VERIF_SEED=1):
+//!  M0 (the defect repaired by /repo 1cabfe4, present on the first run):
+//!     caught by `chopped.position` (panic index out of bounds, shrunk to 2
+//!     polynomials / 2 points).
+//!  M1 verifier computes `v` without the `f_eval` term: caught by every honest
+//!     sub-check (`honest:rejected:reject:verify`, shrunk to 1 poly / 1 point).
+//!  M2 prover continues the x1 powers across point sets, verifier restarts
+//!     them: caught by patterns/random/chopped (needs >= 2 point sets).
+//!  M3 `construct_intermediate_sets` stores evaluations in query order instead
+//!     of point-set order: caught by patterns/random/chopped (needs a
+//!     polynomial whose points are first seen in another order).
+//!  M4 duplicate (commitment, point) silently skipped instead of
+//!     `DuplicatedQuery`: caught by `duplicates` (`dup:prover:not-refused`) and
+//!     by `faults.*` (`fault:ComSwap:accepted`).
+//!  M5 soundness only — prover leaves f(X) out of the final polynomial and the
+//!     verifier leaves f_com / f_eval out: honest sub-checks silent, caught by
+//!     `faults.*` (Eval*/Point*/ComSwap accepted).
+//!  M6 soundness only — x1 batching replaced by all-ones on both sides: honest
+//!     sub-checks and all single-value faults silent, caught only by the
+//!     compensating fault `EvalPair` (+d / -d on two values of one point set).
 
 use std::{
     collections::{BTreeSet, HashMap},
@@ -613,6 +635,9 @@ fn honest_check(c: &SetCase) -> CaseResult {
 enum FaultKind {
     EvalPlusOne,
     EvalRandom,
+    /// two claimed values changed by +d and -d (same point and same point set
+    /// when possible): only the batching challenges separate them
+    EvalPair,
     PointFresh,
     PointOther,
     ComAll,
@@ -627,7 +652,8 @@ enum FaultKind {
     Append,
 }
 
-const ALL_FAULTS: [FaultKind; 14] = [
+const ALL_FAULTS: [FaultKind; 15] = [
+    FaultKind::EvalPair,
     FaultKind::EvalPlusOne,
     FaultKind::EvalRandom,
     FaultKind::PointFresh,
@@ -745,6 +771,35 @@ fn apply_fault(w: &World, honest_proof: &[u8], f: &Fault) -> Option<Applied> {
             }
             stmt.queries[q].eval = v;
             what = format!("eval of query {q} random");
+        }
+        FaultKind::EvalPair => {
+            let q = a % nq;
+            let mask_of = |c: usize| -> Vec<Fq> {
+                let mut m: Vec<Fq> = stmt.queries.iter().filter(|x| x.com == c).map(|x| x.point).collect();
+                m.sort();
+                m
+            };
+            let (pt, mk) = (stmt.queries[q].point, mask_of(stmt.queries[q].com));
+            let same_set: Vec<usize> = (0..nq)
+                .filter(|i| *i != q && stmt.queries[*i].point == pt && mask_of(stmt.queries[*i].com) == mk)
+                .collect();
+            let same_point: Vec<usize> = (0..nq).filter(|i| *i != q && stmt.queries[*i].point == pt).collect();
+            let any: Vec<usize> = (0..nq).filter(|i| *i != q).collect();
+            let cands = if !same_set.is_empty() {
+                same_set
+            } else if !same_point.is_empty() {
+                same_point
+            } else {
+                any
+            };
+            if cands.is_empty() {
+                return None;
+            }
+            let q2 = cands[b % cands.len()];
+            let d = nonzero(&mut rng);
+            stmt.queries[q].eval += d;
+            stmt.queries[q2].eval -= d;
+            what = format!("evals of queries {q} and {q2} changed by +d / -d");
         }
         FaultKind::PointFresh => {
             let q = a % nq;
@@ -973,6 +1028,8 @@ fn enumerate_faults(set: &SetCase, w: &World, all_bits: bool, seed: u64) -> Vec<
     for q in 0..nq {
         push(FaultKind::EvalPlusOne, q, 0);
         push(FaultKind::EvalRandom, q, 0);
+        push(FaultKind::EvalPair, q, 0);
+        push(FaultKind::EvalPair, q, 1);
         push(FaultKind::PointFresh, q, 0);
         for b in 0..np.saturating_sub(1) {
             push(FaultKind::PointOther, q, b);
@@ -1175,7 +1232,7 @@ fn set_strategy(max_polys: usize, chop: u8, chop_pos: Option<ChopPos>) -> BoxedS
 
 fn fault_strategy() -> BoxedStrategy<FaultCase> {
     (
-        prop_oneof![set_strategy(8, 0, None), set_strategy(8, 2, None)],
+        prop_oneof![set_strategy(8, 0, None), set_strategy(8, 1, None), set_strategy(8, 2, None)],
         proptest::sample::select(ALL_FAULTS.to_vec()),
         any::<u16>(),
         any::<u16>(),
@@ -1442,7 +1499,7 @@ fn main() {
                 "edge.points_vs_degree",
                 "k = 2: a polynomial with 4 coefficients opened at 4 and at 5 distinct points; honest proof must verify; non-trivial always (multi-point)",
                 items,
-                4,
+                1, // one thread: the first reported item is the same in every run
                 false,
                 |c| {
                     honest_check(c).map_err(|f| {
@@ -1467,7 +1524,7 @@ fn main() {
             }
             p.enumerate(
                 "faults.enum",
-                "13 fixed query-set shapes (two chopped commitments at different points behind another query, single opening, multi-point, several point sets, vanishing-like chopped + random, zero/constant, identical polynomials, |points| = 2^k, 12 polys x 5 points, statement absorbed) x every single fault: each claimed value (+1, random), each point (fresh, another point of the set), each commitment (all queries / one query / another existing commitment), each piece (value, order, piece size), each proof element f_com / q_eval_j / pi (+G or +1, random, identity or 0, swapped), a bit of every proof byte (all bits in thorough; all bits of the flag bytes), truncations at and around element boundaries, appended bytes; must be rejected without panic; non-trivial = corrupted element is read by the verifier (all but appended bytes) and the corrupted statement is false",
+                "13 fixed query-set shapes (two chopped commitments at different points behind another query, single opening, multi-point, several point sets, vanishing-like chopped + random, zero/constant, identical polynomials, |points| = 2^k, 12 polys x 5 points, statement absorbed) x every single fault: each claimed value (+1, random, +d with -d on a second value of the same point set), each point (fresh, another point of the set), each commitment (all queries / one query / another existing commitment), each piece (value, order, piece size), each proof element f_com / q_eval_j / pi (+G or +1, random, identity or 0, swapped), a bit of every proof byte (all bits in thorough; all bits of the flag bytes), truncations at and around element boundaries, appended bytes; must be rejected without panic; non-trivial = corrupted element is read by the verifier (all but appended bytes) and the corrupted statement is false",
                 items,
                 16,
                 false,
